@@ -176,6 +176,7 @@ type ctx struct {
 	ghostConst   map[string]term
 	inInv        bool
 	inMerge      bool
+	critical     int
 	typeIDs      map[string]int
 	noAllocFacts bool
 	lastInst     *ssa.Function
@@ -1460,6 +1461,7 @@ func (x *ctx) sliceOp(st *state, fr *frame, in *ssa.Slice) val {
 	}
 	// s[lo:hi]: fresh slice whose elements are shifted copies
 	r := x.freshTerm("subslice", sRef)
+	x.assumeFreshRef(st, r)
 	lo := mkbv(0, 64)
 	if in.Low != nil {
 		lo = x.asTerm(x.get(fr, st, in.Low), in.Low.Type())
